@@ -8,6 +8,7 @@ import (
 	"fmt"
 	"io"
 	"os"
+	"strings"
 	"path/filepath"
 	"time"
 
@@ -305,6 +306,38 @@ func runC02(c *Ctx) {
 		}
 		if b, pan := c01Serialize(p); !pan {
 			parseCase("dropped-labels", b, "stream:dropped-labels")
+		}
+	}
+	// 6b. odd function names under non-empty drop_frames / keep_frames (the name simplifier and the
+	// pruning regexps run on every fetched profile that has them; every legacy profile gets built-in ones):
+	// names cut in the middle of an operator, a template or an argument list, unbalanced brackets, empty
+	oddNames := []string{"operator(", "Foo::operator(", "operator()", "operator()(", "Foo::operator()(int", "a(", "(", ")", "((", ")(", "<", "a<", "a<b", ">",
+		"operator<", "operator<<(", "operator<(", "operator->", "f[abi:cxx11](", "[", "]", "(anonymous namespace)::f(", "f(int) [clone .cold", "f (", " ",
+		"", "$", "\\", ".", "a.(*T).m", "a.func1.2(", "malloc", "free(", "x::malloc", "operator new", "operator new(", "operator new[](", "%s", "a\x00b", "\xff(", "f<operator(>", "operator"}
+	for i, nm := range oddNames {
+		p := &profile.Profile{SampleType: []*profile.ValueType{{Type: "samples", Unit: "count"}},
+			DropFrames: []string{"malloc|free", "operator new|malloc", ".*", "malloc"}[i%4], KeepFrames: []string{"", "", "keepme", ""}[i%4]}
+		fm := &profile.Function{ID: 1, Name: "main", SystemName: "main"}
+		fo := &profile.Function{ID: 2, Name: nm, SystemName: nm}
+		fd := &profile.Function{ID: 3, Name: "malloc", SystemName: "malloc"}
+		p.Function = []*profile.Function{fm, fo, fd}
+		for j, f := range p.Function {
+			p.Location = append(p.Location, &profile.Location{ID: uint64(j + 1), Address: uint64(0x1000 + 16*j), Line: []profile.Line{{Function: f, Line: int64(j + 1)}}})
+		}
+		if i%3 == 0 { // the odd name inlined into main's location
+			p.Location[0].Line = append([]profile.Line{{Function: fo, Line: 9}}, p.Location[0].Line...)
+		}
+		p.Sample = []*profile.Sample{
+			{Location: []*profile.Location{p.Location[2], p.Location[1], p.Location[0]}, Value: []int64{3}},
+			{Location: []*profile.Location{p.Location[1], p.Location[2], p.Location[0]}, Value: []int64{5}},
+			{Location: []*profile.Location{p.Location[1]}, Value: []int64{7}}}
+		if b, pan := c01Serialize(p); !pan {
+			parseCase("odd-names", b, "stream:odd-names")
+		}
+		if i%2 == 0 && !strings.ContainsAny(nm, "\n\x00") {
+			jdoc := "--- heapz 1 ---\nformat = java\nresolution = bytes\n          4752     9 @ 0x0000002b 0x0000002c 0x0000002d\n           100     1 @ 0x0000002c\n\n" +
+				" 0x0000002b java.lang.Object.<init> (Object.java:37)\n 0x0000002c " + nm + "\n 0x0000002d com.example.Main.main (Main.java:12)\n"
+			parseCase("odd-names", []byte(jdoc), "stream:odd-names-java")
 		}
 	}
 	// 7. legacy text documents whose numbers are extreme (counts, totals, rates, periods, thread ids,
